@@ -2091,6 +2091,7 @@ func (l *Loader) loadByContext(ctx context.Context, source DataSource, fetchItem
 	}
 
 	if shared {
+		verifYield("c11.subgraph.after_loadorstore")
 		select {
 		case <-item.loaded:
 		case <-ctx.Done():
